@@ -654,6 +654,15 @@ func main() {
 		mustReject(sch+"://"+reg+"/"+part, "unknown-scheme")
 		mustReject(sch+"://"+part+":v1", "unknown-scheme")
 		mustReject("ocidir://", "empty-component")
+		// a scheme separator needs a scheme in front of it
+		mustReject("://"+reg+"/"+part, "empty-scheme")
+		mustReject("://"+part+":v1", "empty-scheme")
+		mustReject("://"+part, "empty-scheme")
+		// schemes are lower-case letters only
+		mustReject(pick(rng, []string{"OCIDIR", "Reg", "ocidir2", "oci-dir", "1reg"})+"://"+part, "malformed-scheme")
+		if _, err := ref.NewHost("://" + reg); err == nil {
+			run.Violation("newhost/empty-scheme", fmt.Sprintf("ref.NewHost(%q) accepted", "://"+reg), nil)
+		}
 		run.Distinct("reject-battery")
 	})
 	// (iv) mutations of valid references and arbitrary bytes: every accepted string obeys the laws
